@@ -35,8 +35,8 @@ package dram
 //@   loop 0: invariant madeProgress <==> (exists j in 0..rangeindex + 1 :: old(bs.CyclesToCmdAvailable[j]) > 0)
 
 //@ func c22Wrap64(x) = x < 0 ? x + MaxUint64 + 1 : x
-// uint64 -> int conversion (wraps), written as the engine encodes it
-//@ func c22ToInt(x) = x > 9223372036854775807 ? x - 18446744073709551616 : (x < 0 - 9223372036854775808 ? x + 18446744073709551616 : x)
+// uint64 -> int conversion (wraps)
+//@ func c22ToInt(x) = x > MaxInt64 ? x - MaxUint64 - 1 : x
 
 //@ pred c22TFAWOK(spec, state, rank) = rank < 0 || rank >= len(state.BankStates.ActivateHistories) || len(state.BankStates.ActivateHistories[rank].Timestamps) < 4 || c22Wrap64(state.TickCount - state.BankStates.ActivateHistories[rank].Timestamps[len(state.BankStates.ActivateHistories[rank].Timestamps) - 4]) >= c22Wrap64(spec.TFAW)
 
@@ -183,37 +183,28 @@ package dram
 //@   loop 0: invariant madeProgress <==> (exists b in 0..rangeindex + 1 :: exists k in 0..numCmdKind :: old(state.BankStates.Entries[b].Data.CyclesToCmdAvailable[k]) > 0)
 
 // ---- the bank a location designates ----
-// int arithmetic wraps. c22M is the two's-complement wrap of a mathematical integer; c22WrapAdd is the same function on
-// the range a sum of two ints can take (the form in which the engine encodes a wrapping sum; lemma c22WrapSum ties them).
-//@ func c22M(x) = (x + 9223372036854775808) % 18446744073709551616 - 9223372036854775808
+// int arithmetic wraps; written exactly as the engine encodes a wrapping product / sum, so that the code's value and the
+// spec's value are the same term (a closed form with nested `%` makes cvc5 1.0.3 report bogus models and z3 time out)
+//@ func c22WrapMul(x) = (x + 9223372036854775808) % 18446744073709551616 - 9223372036854775808
 //@ func c22WrapAdd(x) = x > 9223372036854775807 ? x - 18446744073709551616 : (x < 0 - 9223372036854775808 ? x + 18446744073709551616 : x)
-//@ func c22FlatIdx(flat, rank, bankGroup, bank) = c22M(c22M(c22M(c22M(rank * flat.NumBankGroups) + bankGroup) * flat.NumBanks) + bank)
-
-//@ lemma c22WrapSum(x)
-//@   property C22
-//@   requires 0 - 18446744073709551616 <= x && x <= 18446744073709551616
-//@   label C22.lemma.wrapsum
-//@   ensures c22WrapAdd(x) == c22M(x)
+//@ func c22FlatIdx(flat, rank, bankGroup, bank) = c22WrapAdd(c22WrapMul(c22WrapAdd(c22WrapMul(rank * flat.NumBankGroups) + bankGroup) * flat.NumBanks) + bank)
 
 //@ fn bankFlatIndex
 //@   property C22
 //@   requires flat != nil
-//@   use c22WrapSum(c22M(rank * flat.NumBankGroups) + bankGroup)
-//@   use c22WrapSum(c22M(c22M(c22M(rank * flat.NumBankGroups) + bankGroup) * flat.NumBanks) + bank)
 //@   label C22.bank.index
 //@   ensures result == c22FlatIdx(flat, rank, bankGroup, bank)
 //@   assigns nothing
 
 // findBankState returns an interior pointer; the engine models a returned pointer as an object of its own, so the contract
 // states which entry it designates by value: same state, open row and countdowns as Entries[idx].Data.
-// (numCmdKind = 10 countdowns, written out so that the fact is quantifier-free)
-//@ pred c22SameBank(p, d) = p.State == d.State && p.OpenRow == d.OpenRow && p.CyclesToCmdAvailable[0] == d.CyclesToCmdAvailable[0] && p.CyclesToCmdAvailable[1] == d.CyclesToCmdAvailable[1] && p.CyclesToCmdAvailable[2] == d.CyclesToCmdAvailable[2] && p.CyclesToCmdAvailable[3] == d.CyclesToCmdAvailable[3] && p.CyclesToCmdAvailable[4] == d.CyclesToCmdAvailable[4] && p.CyclesToCmdAvailable[5] == d.CyclesToCmdAvailable[5] && p.CyclesToCmdAvailable[6] == d.CyclesToCmdAvailable[6] && p.CyclesToCmdAvailable[7] == d.CyclesToCmdAvailable[7] && p.CyclesToCmdAvailable[8] == d.CyclesToCmdAvailable[8] && p.CyclesToCmdAvailable[9] == d.CyclesToCmdAvailable[9] && numCmdKind == 10
+//@ pred c22SameBank(p, d) = p.State == d.State && p.OpenRow == d.OpenRow && (forall k in 0..numCmdKind :: p.CyclesToCmdAvailable[k] == d.CyclesToCmdAvailable[k])
 
 //@ fn findBankState
 //@   property C22
 //@   requires flat != nil
 //@   label C22.bank.find
-//@   ensures (c22FlatIdx(flat, rank, bankGroup, bank) < 0 || c22FlatIdx(flat, rank, bankGroup, bank) >= len(flat.Entries)) ? result == nil : (result != nil && c22SameBank(result, flat.Entries[c22FlatIdx(flat, rank, bankGroup, bank)].Data))
+//@   ensures forall i int :: i == c22FlatIdx(flat, rank, bankGroup, bank) ==> ((i < 0 || i >= len(flat.Entries)) ? result == nil : (result != nil && c22SameBank(result, flat.Entries[i].Data)))
 //@   assigns nothing
 
 //@ func c22LocIdx(flat, loc) = c22FlatIdx(flat, c22ToInt(loc.Rank), c22ToInt(loc.BankGroup), c22ToInt(loc.Bank))
@@ -222,19 +213,17 @@ package dram
 //@   property C22
 //@   requires flat != nil
 //@   label C22.bank.bylocation
-//@   ensures (c22LocIdx(flat, loc) < 0 || c22LocIdx(flat, loc) >= len(flat.Entries)) ? result == nil : (result != nil && c22SameBank(result, flat.Entries[c22LocIdx(flat, loc)].Data))
+//@   ensures forall i int :: i == c22LocIdx(flat, loc) ==> ((i < 0 || i >= len(flat.Entries)) ? result == nil : (result != nil && c22SameBank(result, flat.Entries[i].Data)))
 //@   assigns nothing
 
 // ---- the command queue and the scheduler scans ----
-// (that the entries before idx keep their place is true but deliberately not stated: with both quantified facts in scope the
-// solvers no longer decide the scans' legality obligations on the path that removes an entry; C22 does not depend on it)
 //@ fn removeCommandFromQueueByIndex
 //@   property C22
 //@   requires next != nil && 0 <= idx && idx < len(next.CommandQueues.Entries)
 //@   label C22.queue.remove.len
 //@   ensures len(next.CommandQueues.Entries) == old(len(next.CommandQueues.Entries)) - 1
-//@   label C22.queue.remove.after
-//@   ensures forall j in idx..len(next.CommandQueues.Entries) :: next.CommandQueues.Entries[j] == old(next.CommandQueues.Entries[j + 1])
+//@   label C22.queue.remove.shift
+//@   ensures forall j in 0..len(next.CommandQueues.Entries) :: next.CommandQueues.Entries[j] == (j < idx ? old(next.CommandQueues.Entries[j]) : old(next.CommandQueues.Entries[j + 1]))
 //@   assigns next.CommandQueues.Entries, elems(next.CommandQueues.Entries)
 
 // The property's statement for one issued command r, judged against the bank its location designates:
@@ -242,7 +231,8 @@ package dram
 // row, Read/Write (with or without auto-precharge) only on an open bank holding the command's row - and in every case
 // only when the bank's countdown for that command kind has reached zero.
 //@ pred c22LegalOn(spec, state, r, idx) = 0 <= idx && idx < len(state.BankStates.Entries) && 0 <= r.Kind && r.Kind < numCmdKind && state.BankStates.Entries[idx].Data.CyclesToCmdAvailable[r.Kind] == 0 && ((r.Kind == cmdKindActivate && state.BankStates.Entries[idx].Data.State == bankStateClosed && (spec.TFAW > 0 ==> c22TFAWOK(spec, state, c22ToInt(r.Location.Rank)))) || (r.Kind == cmdKindPrecharge && state.BankStates.Entries[idx].Data.State == bankStateOpen && state.BankStates.Entries[idx].Data.OpenRow != r.Location.Row) || (c22IsRW(r.Kind) && state.BankStates.Entries[idx].Data.State == bankStateOpen && state.BankStates.Entries[idx].Data.OpenRow == r.Location.Row))
-//@ pred c22Legal(spec, state, r) = c22LegalOn(spec, state, r, c22LocIdx(state.BankStates, r.Location))
+// (the index is bound once by a quantifier only to keep the formula small; it is the single value c22LocIdx(...))
+//@ pred c22Legal(spec, state, r) = forall i int :: i == c22LocIdx(state.BankStates, r.Location) ==> c22LegalOn(spec, state, r, i)
 
 //@ fn findOldestReadyCommand
 //@   property C22
